@@ -29,7 +29,7 @@ from pylib import tlc
 from pylib.common import REPO, mktmp, rng, seed, use_repo
 
 INTENDED = dict(PyClearReplyArg='"succeeded"', DSandboxRequest='"request_sandbox_summary"', DrainAfterEnvFail="TRUE",
-                KillUnresponsive="TRUE", RawHelperLines="TRUE", FramingExact="TRUE")
+                KillUnresponsive="TRUE", RawHelperLines="TRUE", FramingExact="TRUE", NBashrc="1")
 ALL_KINDS = ["is_responsive", "preload_async", "preload_sync", "clear_preloaded", "set_metadata_path", "gen_metadata",
              "gen_env", "run_phase", "run_phase_file", "shutdown"]
 
@@ -119,13 +119,17 @@ def lex_w(data):
     return [dict(cmd=cmd or "blank", arg=arg, need=need, have=have)]
 
 
+REAL_HELPERS = {"filter_env", "dodir", "keepdir", "doins", "dobin", "dosym", "dodoc", "has_version", "best_version"}
+
+
 def lex_r(data):
     if data == "":
         return dict(cmd="EOF", arg="-", need=0, have=0)
     line = data.strip()
     cmd, _, rest = line.partition(" ")
     arg = rest.split(" ")[0] if rest else "-"
-    cmd = {"__request_sandbox_summary": "__request_sandbox_summary"}.get(cmd, cmd)
+    if cmd in REAL_HELPERS:
+        cmd = "doins"  # the abstract helper of the specification
     known_arg = {"phases", "preload_eclass", "clear_preloaded_eclasses", "clear_preload_eclasses"}
     return dict(cmd=cmd or "blank", arg=arg if cmd in known_arg else "-", need=0, have=0)
 
@@ -168,8 +172,12 @@ def run_requests(ebp, reqs, tracefile, scratch, log):
         with open(tracefile, "a") as f:
             f.write(json.dumps(dict(dir="mark", **kw)) + "\n")
 
+    mark(ev="ebp", id=id(ebp))
     for r in reqs:
         kind = r["kind"]
+        if "real" in r:
+            built = r["real"]()  # may run other processors: done before the request starts
+            r = dict(r, real=lambda built=built: built)
         mark(ev="req", kind=kind, need=r.get("need", 0), have=r.get("have", 0))
         out = None
         try:
@@ -194,6 +202,11 @@ def run_requests(ebp, reqs, tracefile, scratch, log):
                 ebp._metadata_paths = ("/dev/null",)
                 ebp.get_ebuild_environment(stub_pkg(r["ebuild"]) if "ebuild" in r else pkg, ecache)
                 out = "env"
+            elif kind in ("run_phase", "run_phase_file") and "real" in r:
+                rp = r["real"]()
+                res = ebp.run_phase(rp["phase"], rp["env"], tmpdir=rp["tmpdir"], logging=rp["logging"], sandbox=False,
+                                    additional_commands=rp["handlers"])
+                out = str(bool(res))
             elif kind in ("run_phase", "run_phase_file"):
                 handlers = {"doins": fake_helper, "request_bashrcs": fake_bashrcs}
                 env = {"FOO": "bar baz", "T": "/tmp"}
@@ -518,9 +531,15 @@ def replay_session(hist, lit, scratch, idx, wall=300.0):
 
 def to_events(tid, recs, daemon):
     evs, i = [], 0
+    mine = next((r["id"] for r in recs if r["dir"] == "mark" and r.get("ev") == "ebp"), None)
+    started = False
     for rec in recs:
         d = rec["dir"]
         new = []
+        if d == "mark" and rec.get("ev") == "req":
+            started = True
+        if d in ("w", "r", "raw") and (not started or (mine is not None and rec.get("ebp") != mine)):
+            continue  # constructor handshake, or another processor (e.g. the one that regenerated metadata)
         if d == "mark":
             if rec["ev"] == "req":
                 new = [dict(ev="req", kind=rec["kind"], need=rec["need"], have=rec["have"])]
@@ -528,7 +547,7 @@ def to_events(tid, recs, daemon):
                 new = [dict(ev="end", out=rec["out"])]
             elif rec["ev"] == "hang":
                 new = [dict(ev="hang")]
-            elif rec["ev"] == "timer":
+            elif rec["ev"] in ("timer", "ebp", "dpid"):
                 continue
             elif rec["ev"] == "harness-error":
                 raise tlc.MachineryError(f"replay harness failed: {rec['what']}")
@@ -570,7 +589,58 @@ def real_sessions(scratch, n_variants):
     eb_syn = os.path.join(scratch, "pkg-3.ebuild")
     with open(eb_syn, "w") as f:
         f.write('EAPI=8\nDESCRIPTION="d\nSLOT=0\n')
+    def real_setup_phase(bashrc_bodies, ebuild_body, phase="setup"):
+        """Everything a real phase run needs, built lazily inside the harness process."""
+        def build():
+            from functools import partial
+
+            from pkgcore.ebuild import ebd_ipc, processor
+            from pkgcore.ebuild.atom import atom
+            from pkgcore.pytest.plugin import EbuildRepo
+
+            tmp = tempfile.mkdtemp(prefix="phase-", dir=scratch)
+            repo = EbuildRepo(os.path.join(tmp, "repo"))
+            repo.create_ebuild("cat/pkg-1", data=ebuild_body)
+            repo.sync()
+            pkg = max(repo._repo.itermatch(atom("cat/pkg")))
+            for dname in ("T", "empty", "work", "home", "image"):
+                os.makedirs(os.path.join(tmp, dname))
+            T = os.path.join(tmp, "T")
+            env = processor.expected_ebuild_env(pkg, depends=True)
+            env.update({"PATH": os.environ["PATH"], "USE": "", "SLOT": "0", "INHERITED": "", "T": T, "PORTAGE_TMPDIR": tmp,
+                        "WORKDIR": os.path.join(tmp, "work"), "D": os.path.join(tmp, "image/"), "ED": os.path.join(tmp, "image/"),
+                        "HOME": os.path.join(tmp, "home"), "ROOT": "/", "PKGCORE_PKG_REPO": "fake",
+                        "PKGCORE_EMPTYDIR": os.path.join(tmp, "empty")})
+            paths = []
+            for k, body in enumerate(bashrc_bodies):
+                bp = os.path.join(tmp, f"bashrc-{k}")
+                with open(bp, "w") as f:
+                    f.write(body)
+                paths.append(bp)
+
+            def request_bashrcs(ebd):  # the exchange of pkgcore.ebuild.ebd.ebd._request_bashrcs
+                for bp in paths:
+                    ebd.write(f"path\n{bp}")
+                    if not ebd.expect("next"):
+                        processor.chuck_UnhandledCommand(ebd, "bashrc transfer, didn't receive 'next' response. failure?")
+                ebd.write("end_request")
+
+            op = Stub()
+            op.observer, op.pkg = None, pkg
+            return dict(phase=phase, env=env, tmpdir=T, logging=os.path.join(tmp, "phase.log"),
+                        handlers={"request_bashrcs": request_bashrcs,
+                                  "request_inherit": partial(processor.inherit_handler, repo._repo.eclass_cache),
+                                  "filter_env": ebd_ipc.FilterEnv(op)})
+        return build
+
+    setup_body = 'pkg_setup() { echo "setup ran: ${BRC_MARK}" > "${T}/setup-ran"; }\n'
     plans = [
+        ("setup-phase-bashrcs", [dict(kind="run_phase_file", need=0, have=0,
+                                      real=real_setup_phase(["BRC_MARK=one\n", 'BRC_MARK=${BRC_MARK}-two\n[[ -n ${C35_UNSET} ]] && echo dbg\n',
+                                                             "BRC_MARK=${BRC_MARK}-three\nfalse\n"], setup_body)),
+                                 dict(kind="is_responsive"), dict(kind="shutdown")]),
+        ("setup-phase-dies", [dict(kind="run_phase_file", need=0, have=0,
+                                   real=real_setup_phase(["X=1\n"], 'pkg_setup() { die "no way"; }\n'))]),
         ("regen-with-inherit", [dict(kind="set_metadata_path", need=1, have=1), dict(kind="gen_metadata", need=1, have=1, ebuild=eb_ok),
                                 dict(kind="gen_metadata", need=1, have=1, ebuild=eb_ok), dict(kind="is_responsive"), dict(kind="shutdown")]),
         ("env-dump", [dict(kind="gen_env", need=1, have=1, ebuild=eb_ok), dict(kind="is_responsive"), dict(kind="shutdown")]),
@@ -613,8 +683,6 @@ def real_sessions(scratch, n_variants):
                 os._exit(0)
         hung = wait_or_hang_real(pid, 240, tracefile)
         recs = [json.loads(x) for x in open(tracefile) if x.strip()]
-        # the first four records are the constructor's handshake (ebd? / no_sandbox): not a request
-        recs = [r for r in recs if not (r["dir"] in "wr" and r.get("seq", 99) <= 4)]
         if hung:
             recs.append(dict(dir="mark", ev="hang"))
         out.append((name, recs))
@@ -639,14 +707,16 @@ def run(ck):
     # 1. model checking the intended protocol
     q = ck.quick
     res = ck.mc("EbdProtocol_MC", cfg_text=cfg("Spec", {}, 1, 2, 1, 8, extra=MC_PROPS), workers=ck.pick(6, 16),
-                timeout=ck.pick(400, 3000), label="MC:intended MaxReq=2 Budget=1 MaxSig=1")
+                timeout=ck.pick(1500, 6000), label="MC:intended MaxReq=2 Budget=1 MaxSig=1")
+    ck.mc("EbdProtocol_MC", cfg_text=cfg("Spec", {"NBashrc": "2"}, 1, 1, 1, 8, kinds=["run_phase", "run_phase_file", "shutdown"], extra=MC_PROPS),
+          workers=ck.pick(4, 8), timeout=ck.pick(1500, 6000), label="MC:intended, two bashrcs, phase requests")
     if not q:
         ck.mc("EbdProtocol_MC", cfg_text=cfg("Spec", {}, 2, 3, 1, 10, extra=MC_PROPS), workers=16, timeout=3000,
               label="MC:intended MaxReq=3 Budget=2 MaxSig=1")
         ck.mc("EbdProtocol_MC", cfg_text=cfg("FairSpec", {}, 1, 2, 1, 8, extra="CONSTRAINT ChanBound\nPROPERTY Terminates\n"),
               workers=8, timeout=3000, label="MC:liveness Terminates")
     for consts, inv in (GUARDS[:2] if q else GUARDS):
-        r = ck.mc("EbdProtocol_MC", cfg_text=cfg("Spec", consts, 1, 2, 1, 8, extra=MC_PROPS), workers=4, timeout=600,
+        r = ck.mc("EbdProtocol_MC", cfg_text=cfg("Spec", consts, 1, 2, 1, 8, extra=MC_PROPS), workers=4, timeout=1500,
                   label=f"MC:guard {consts}", expect_ok=False)
         if r.violated != inv:
             raise tlc.MachineryError(f"vacuity guard {consts}: expected TLC to violate {inv}, got {r.violated}")
@@ -681,7 +751,7 @@ def run(ck):
     # 3. code -> spec with the real daemon
     base = len(behs)
     if not ck.replay_case:
-        for k, (name, recs) in enumerate(real_sessions(scratch, ck.pick(7, 9))):
+        for k, (name, recs) in enumerate(real_sessions(scratch, ck.pick(9, 11))):
             evs = to_events(base + k, recs, "real")
             events += evs
             sessions[base + k] = name
